@@ -17,7 +17,7 @@ CONSTANTS
   BurstSizes = {1, 2}
   PskIds = {"k1", "k2"}
   PskValues = {"none", "a"}
-  Deviations = {"F12"}
+  Deviations = {"F12", "F14"}
   MaxApps = 0
   MaxLen = 3
 INVARIANT Theorems
